@@ -141,6 +141,15 @@ where
         }
         // ---- C08: panics
         if let Resp::Panic(msg) = &o.resp {
+            if msg.contains("oxh-runaway") {
+                f.push(Finding {
+                    property: "C06",
+                    class: if scn.classes.iter().any(|c| c == "zero_resolution") { "runaway:zero_resolution".into() } else { "runaway".into() },
+                    what: format!("{} did not finish a motion check within {} validity queries", crate::run::call_json(&o.call), crate::log::RUNAWAY_LIMIT),
+                    call: ci,
+                });
+                continue;
+            }
             let class = if scn.classes.iter().any(|c| c == "bias_out_of_range") && msg.contains("outside range") {
                 "panic:bias_out_of_range"
             } else if scn.classes.iter().any(|c| c == "empty_start") && msg.contains("index out of bounds") {
@@ -379,4 +388,260 @@ pub fn snap_json(s: &Snap) -> J {
             ),
         ),
     ])
+}
+
+// ------------------------------------------------------------------------------------------
+// C16: one-iteration oracle (cases generated with per-iteration scripts: every solve has budget 1)
+
+pub fn check_iter<S, SP>(scn: &Scenario<S, SP>, outs: &[CallOut<S>], lg: &crate::log::Log) -> Vec<Finding>
+where
+    S: State + Clone + Key,
+    SP: StateSpace<StateType = S>,
+{
+    let mut f = Vec::new();
+    if scn.params.kind == PlannerKind::Prm {
+        return f;
+    }
+    let sp = &scn.space.inner;
+    let tol = |x: f64| 1e-9 * x.abs() + 2.0 * LERP_TOL;
+    for ci in 1..outs.len() {
+        let (prev, cur) = (&outs[ci - 1], &outs[ci]);
+        if !matches!(cur.call, Call::Solve(1)) || cur.ticks != 2 {
+            continue; // not a single complete iteration (ticks: the one that passed + the one that stopped)
+        }
+        if matches!(cur.resp, Resp::Panic(_)) {
+            continue;
+        }
+        let evs: Vec<_> = lg.events.iter().filter(|e| e.call == ci).collect();
+        if evs.len() != 1 {
+            continue;
+        }
+        let Some(qid) = evs[0].result else { continue };
+        let Some(q) = lg.state_of::<S>(qid) else { continue };
+        // sampler kind for bias 0 / 1
+        let is_goal = matches!(evs[0].kind, crate::log::SKind::Goal(_));
+        if scn.params.bias == 0.0 && is_goal {
+            f.push(Finding { property: "C16", class: "goal_sampled_at_bias_0".into(), what: "goal sampler used with goal_bias = 0".into(), call: ci });
+        }
+        if scn.params.bias == 1.0 && !is_goal {
+            f.push(Finding { property: "C16", class: "uniform_sampled_at_bias_1".into(), what: "uniform sampler used with goal_bias = 1".into(), call: ci });
+        }
+        let grew_s = cur.tree_states.len() as i64 - prev.tree_states.len() as i64;
+        let grew_g = cur.gtree_states.len() as i64 - prev.gtree_states.len() as i64;
+        if !(0..=1).contains(&grew_s) || !(0..=1).contains(&grew_g) {
+            f.push(Finding { property: "C16", class: "more_than_one_node".into(), what: format!("one iteration changed the tree sizes by {grew_s} / {grew_g}"), call: ci });
+            continue;
+        }
+        // existing nodes untouched (states)
+        let same_prefix = |a: &Vec<S>, b: &Vec<S>| a.iter().zip(b.iter()).all(|(x, y)| x.key() == y.key());
+        if !same_prefix(&prev.tree_states, &cur.tree_states) || !same_prefix(&prev.gtree_states, &cur.gtree_states) {
+            f.push(Finding { property: "C16", class: "existing_node_changed".into(), what: "an existing node's state changed".into(), call: ci });
+        }
+        // which tree was extended toward the sample
+        let (before, after, snap_after, which): (&Vec<S>, &Vec<S>, &Vec<(u32, Option<usize>, u64)>, &str) =
+            if scn.params.kind == PlannerKind::Conn {
+                let grow_start = prev.tree_states.len() <= prev.gtree_states.len();
+                if grow_start {
+                    if grew_g == 1 && grew_s == 0 {
+                        f.push(Finding { property: "C16", class: "wrong_tree_grown".into(), what: "the goal tree grew although the start tree was not larger".into(), call: ci });
+                    }
+                    (&prev.tree_states, &cur.tree_states, &cur.snap.tree, "start")
+                } else {
+                    if grew_s == 1 && grew_g == 0 {
+                        f.push(Finding { property: "C16", class: "wrong_tree_grown".into(), what: "the start tree grew although it was larger than the goal tree".into(), call: ci });
+                    }
+                    (&prev.gtree_states, &cur.gtree_states, &cur.snap.gtree, "goal")
+                }
+            } else {
+                (&prev.tree_states, &cur.tree_states, &cur.snap.tree, "the")
+            };
+        if before.is_empty() || after.len() != before.len() + 1 || !scn.real_metric {
+            continue;
+        }
+        let dists: Vec<f64> = before.iter().map(|s| sp.distance(s, &q)).collect();
+        if dists.iter().any(|d| d.is_nan()) {
+            continue;
+        }
+        let dmin = dists.iter().cloned().fold(f64::INFINITY, f64::min);
+        let newn = &after[after.len() - 1];
+        let par = snap_after[after.len() - 1].1;
+        if scn.params.kind != PlannerKind::Star {
+            // the parent is a nearest node
+            if let Some(p) = par {
+                if p >= before.len() || dists[p] > dmin {
+                    f.push(Finding { property: "C16", class: "parent_not_nearest".into(),
+                        what: format!("{which} tree: new node's parent {p} is at distance {} from the sample, the nearest node at {dmin}", dists.get(p).copied().unwrap_or(f64::NAN)), call: ci });
+                }
+            }
+        }
+        // the new state: the sample itself if within max_distance, else at max_distance on the way
+        let near = dists.iter().position(|d| *d == dmin).unwrap();
+        if dmin <= scn.params.maxd {
+            if newn.key() != q.key() {
+                f.push(Finding { property: "C16", class: "sample_not_used".into(),
+                    what: format!("sample within max_distance ({dmin} <= {}) but the new node is not the sample", scn.params.maxd), call: ci });
+            }
+        } else {
+            let d1 = sp.distance(&before[near], newn);
+            let d2 = sp.distance(newn, &q);
+            let ties = dists.iter().filter(|d| **d == dmin).count() > 1;
+            if !ties && ((d1 - scn.params.maxd).abs() > tol(scn.params.maxd) || (d1 + d2 - dmin).abs() > tol(dmin)) {
+                f.push(Finding { property: "C16", class: "bad_step".into(),
+                    what: format!("new node at distance {d1} from the nearest node (max_distance {}), {d2} from the sample, nearest-to-sample {dmin}", scn.params.maxd), call: ci });
+            }
+        }
+    }
+    f
+}
+
+// ------------------------------------------------------------------------------------------
+// C17: RRT* cost invariants on every snapshot (exact float comparisons, as the theorem states)
+
+pub fn check_star<S, SP>(scn: &Scenario<S, SP>, outs: &[CallOut<S>], lg: &crate::log::Log) -> Vec<Finding>
+where
+    S: State + Clone + Key,
+    SP: StateSpace<StateType = S>,
+{
+    let mut f = Vec::new();
+    if scn.params.kind != PlannerKind::Star {
+        return f;
+    }
+    // the theorem assumes distances >= 0 and not NaN
+    if lg.dist.values().any(|b| { let d = f64::from_bits(*b); d.is_nan() || d < 0.0 }) {
+        return f;
+    }
+    let sp = &scn.space.inner;
+    for (ci, o) in outs.iter().enumerate() {
+        let t = &o.snap.tree;
+        for (i, n) in t.iter().enumerate() {
+            let c = f64::from_bits(n.2);
+            if !(c >= 0.0) {
+                f.push(Finding { property: "C17", class: "negative_or_nan_cost".into(), what: format!("node {i} has cost {c}"), call: ci });
+            }
+            match n.1 {
+                None => {
+                    if i == 0 && c != 0.0 {
+                        f.push(Finding { property: "C17", class: "root_cost".into(), what: format!("root cost {c}"), call: ci });
+                    }
+                }
+                Some(p) if p < t.len() => {
+                    let cp = f64::from_bits(t[p].2);
+                    let d = sp.distance(&o.tree_states[i], &o.tree_states[p]);
+                    if d.is_nan() || d < 0.0 {
+                        continue;
+                    }
+                    if !(cp + d <= c) {
+                        f.push(Finding { property: "C17", class: "cost_below_parent_plus_edge".into(),
+                            what: format!("node {i}: cost {c} < parent cost {cp} + edge {d}"), call: ci });
+                    }
+                }
+                _ => {}
+            }
+        }
+    }
+    f
+}
+
+// ------------------------------------------------------------------------------------------
+// C18: roadmap structure on every snapshot; exact completeness / hop-minimality in obstacle-free worlds
+
+pub fn check_prm<S, SP>(scn: &Scenario<S, SP>, outs: &[CallOut<S>], obstacle_free: bool) -> Vec<Finding>
+where
+    S: State + Clone + Key,
+    SP: StateSpace<StateType = S>,
+{
+    let mut f = Vec::new();
+    if scn.params.kind != PlannerKind::Prm {
+        return f;
+    }
+    let sp = &scn.space.inner;
+    let r = scn.params.radius;
+    let mut cur_p: Option<usize> = None;
+    let mut cur_v: Option<usize> = None;
+    let mut prev_rm: Option<&Vec<(u32, Vec<usize>)>> = None;
+    for (ci, o) in outs.iter().enumerate() {
+        match &o.call {
+            Call::Setup(p, v) => { cur_p = Some(*p); cur_v = Some(*v); }
+            Call::SetPd(p) => cur_p = Some(*p),
+            _ => {}
+        }
+        let rm = &o.snap.rm;
+        let n = rm.len();
+        // a second construct_roadmap / a query / set_problem_definition leave the roadmap unchanged
+        if let Some(prev) = prev_rm {
+            let unchanged_expected = match &o.call {
+                Call::Solve(_) | Call::SetPd(_) => true,
+                Call::Construct(_) => !prev.is_empty(),
+                Call::Setup(_, _) => false,
+            };
+            if unchanged_expected && prev != rm {
+                f.push(Finding { property: "C18", class: "roadmap_changed".into(), what: format!("{} changed the roadmap", crate::run::call_json(&o.call)), call: ci });
+            }
+        }
+        prev_rm = Some(rm);
+        for (i, (_, edges)) in rm.iter().enumerate() {
+            let mut seen = std::collections::HashSet::new();
+            for &j in edges {
+                if j >= n || j == i {
+                    f.push(Finding { property: "C18", class: "bad_edge_index".into(), what: format!("milestone {i} has edge to {j}"), call: ci });
+                    continue;
+                }
+                if !seen.insert(j) {
+                    f.push(Finding { property: "C18", class: "duplicate_edge".into(), what: format!("milestone {i} lists {j} twice"), call: ci });
+                }
+                if !rm[j].1.contains(&i) {
+                    f.push(Finding { property: "C18", class: "asymmetric_edge".into(), what: format!("edge {i}->{j} without {j}->{i}"), call: ci });
+                }
+                if scn.real_metric {
+                    let (a, b) = (i.max(j), i.min(j)); // newer -> older
+                    let d = sp.distance(&o.rm_states[a], &o.rm_states[b]);
+                    if !(d < r) {
+                        f.push(Finding { property: "C18", class: "edge_not_within_radius".into(), what: format!("edge {a}-{b} has length {d} >= radius {r}"), call: ci });
+                    }
+                }
+            }
+        }
+        if let Some(v) = cur_v {
+            for (i, s) in o.rm_states.iter().enumerate() {
+                if !(scn.checkers[v].pred)(s) {
+                    f.push(Finding { property: "C18", class: "invalid_milestone".into(), what: format!("milestone {i} is rejected by the checker"), call: ci });
+                }
+            }
+        }
+        // exact query semantics in obstacle-free worlds
+        if let (Call::Solve(b), Some(p), true) = (&o.call, cur_p, obstacle_free) {
+            if *b < 1000 || n == 0 || cur_v.is_none() {
+                continue;
+            }
+            let Some(s0) = scn.problems[p].starts.first() else { continue };
+            let sc: Vec<usize> = (0..n).filter(|&i| sp.distance(s0, &o.rm_states[i]) < r).collect();
+            let goals: Vec<usize> = (0..n).filter(|&i| (scn.problems[p].goal.pred)(&o.rm_states[i])).collect();
+            // independent multi-source BFS
+            let mut distv = vec![usize::MAX; n];
+            let mut q = std::collections::VecDeque::new();
+            for &i in &sc { distv[i] = 0; q.push_back(i); }
+            while let Some(c) = q.pop_front() {
+                for &j in &rm[c].1 {
+                    if j < n && distv[j] == usize::MAX { distv[j] = distv[c] + 1; q.push_back(j); }
+                }
+            }
+            let best = goals.iter().map(|&g| distv[g]).min().unwrap_or(usize::MAX);
+            match &o.resp {
+                Resp::Path(path) => {
+                    if best == usize::MAX {
+                        f.push(Finding { property: "C18", class: "path_without_connection".into(), what: "query succeeded although no start connection reaches a goal milestone".into(), call: ci });
+                    } else if path.len() != best + 2 {
+                        f.push(Finding { property: "C18", class: "not_hop_minimal".into(), what: format!("path visits {} milestones, the minimum is {}", path.len() - 1, best + 1), call: ci });
+                    }
+                }
+                Resp::Err(1) => {
+                    if best != usize::MAX {
+                        f.push(Finding { property: "C18", class: "query_incomplete".into(), what: format!("NoSolutionFound although a goal milestone is {} hops from a start connection", best), call: ci });
+                    }
+                }
+                _ => {}
+            }
+        }
+    }
+    f
 }
